@@ -48,5 +48,6 @@ fn main() {
         let c = &v["case"];
         let o = match c["kind"].as_str().unwrap() { "case" => case(c), "derive" => derive(c), k => json!({"error": format!("kind {k}")}) };
         writeln!(out, "{}", json!({"id": v["id"], "out": o})).unwrap();
+        out.flush().unwrap();      // one answer per line, flushed: a case that kills the process must be the first unanswered one
     }
 }
